@@ -23,6 +23,7 @@ func checkC01(c *Ctx) {
 	m.checkKeySites()
 	m.checkConfinement()
 	checkNotRunningErrors(c) // every cache API call goes through the loop and returns the loop's reply (no fast path around the owner)
+	checkRequestChannelPairing(c)
 	c.floor("T-TABLE(doUpdate)", 4, "doUpdate has 9 paths; the floor is about half the pattern count of the pinned tree so that a refactoring that merges paths does not trip it")
 	c.floor("T-TABLE(doSync.item)", 4, "doSync item step has 9 in-loop paths; the floor is about half the pattern count of the pinned tree so that a refactoring that merges paths does not trip it")
 	c.floor("T-TABLE(doSync.sweep)", 3, "sweep: exit, in set, not in set")
@@ -37,8 +38,9 @@ func init() {
 }
 
 func checkC06(c *Ctx) {
-	checkFilterEquality(c)    // an equal-looking filter is skipped: equality must be sound
-	checkNotRunningErrors(c) // Refilter goes through the loop, in call order
+	checkFilterEquality(c) // an equal-looking filter is skipped: equality must be sound
+	checkNotRunningErrors(c)
+	checkRequestChannelPairing(c) // Refilter goes through the loop, in call order
 	checkRootForwarders(c)
 	checkFilterSubscriptionTable(c)
 	checkFilterSubscriptionFlows(c)
@@ -62,7 +64,7 @@ func checkC03(c *Ctx) {
 	checkControllerTable(c)
 	checkReadyPlumbing(c) // includes: controller cache built with the builder's filter
 	m := newCacheModel(c)
-	m.checkDoSync() // "never regressing an object to an older version" is the found/EQ|GT rows
+	m.checkDoSync()      // "never regressing an object to an older version" is the found/EQ|GT rows
 	checkWatcherTable(c) // the watch restarts from a fresh buffer at every list (no stale frame of the old watch survives the relist)
 	checkWatcherAPI(c)
 	checkListerTable(c) // "after at most one further relist, even if the watch never delivers": the relist cycle has no dead end
@@ -88,7 +90,7 @@ func checkC04(c *Ctx) {
 	checkSessionTable(c)
 	checkSessionFlows(c)
 	checkClientRequestFlows(c) // the resume version reaches the server: each Watch call encodes its own options into a fresh request
-	checkControllerTable(c) // re-read of watcher.events() per iteration, update+distribute of every watch event
+	checkControllerTable(c)    // re-read of watcher.events() per iteration, update+distribute of every watch event
 	// a session that fails to connect must still complete, or the watcher never schedules the retry
 	var wruns []*runInfo
 	for _, r := range findRunFuncs(c.P, []string{""}) {
@@ -109,7 +111,8 @@ func init() {
 
 func checkC13(c *Ctx) {
 	checkCtorChannelCapacities(c)
-	checkSessionFlows(c) // a hung watch connect must not wedge the relist cycle (stop() cancels before it waits)
+	checkRequestChannelPairing(c) // Reset() must reach the reset arm, Stop() the stop arm
+	checkSessionFlows(c)          // a hung watch connect must not wedge the relist cycle (stop() cancels before it waits)
 	checkListerTable(c)
 	checkListGoroutines(c)
 	checkTickerTable(c)
@@ -223,6 +226,7 @@ func checkC12(c *Ctx) {
 	checkJoinWaits(c, sites, runs, kids)
 	checkWaitForGraph(c, runs)
 	checkNotRunningErrors(c)
+	checkRequestChannelPairing(c)
 	checkGoroutineInventory(c, rels, runs)
 	checkRunStartedOnce(c, runs)
 	checkBuilderFlows(c) // context cancellation can only stop what was built with the configured context
@@ -316,6 +320,7 @@ func init() {
 }
 
 func checkC19(c *Ctx) {
+	checkAppendBases(c, []string{"types/deployment", "types/daemonset", "types/replicaset", "types/replicationcontroller", "types/statefulset", "types/job", "types/service", "types/ingress"})
 	checkPodsFilters(c, false)
 	checkIngressFilter(c)
 	checkKindFilters(c)
@@ -395,6 +400,7 @@ func init() {
 }
 
 func checkC02(c *Ctx) {
+	checkAppendBases(c, []string{""}) // the event lists start empty
 	m := newCacheModel(c)
 	m.checkDoUpdate()
 	m.checkDoSync()
@@ -413,6 +419,7 @@ func checkC02(c *Ctx) {
 
 func checkC07(c *Ctx) {
 	checkNotRunningErrors(c)
+	checkRequestChannelPairing(c)
 	checkFilterSubscriptionTable(c)
 	checkFilterSubscriptionFlows(c)
 	checkFSubDistribute(c)
@@ -427,6 +434,7 @@ func checkC07(c *Ctx) {
 
 func checkC08(c *Ctx) {
 	checkNotRunningErrors(c)
+	checkRequestChannelPairing(c)
 	checkFilterEquality(c)
 	checkCtorChannelCapacities(c)
 	checkControllerTable(c)
@@ -443,6 +451,7 @@ func checkC08(c *Ctx) {
 }
 
 func checkC14(c *Ctx) {
+	checkAppendBases(c, []string{""}) // extractList starts empty
 	checkFilterSubscriptionTable(c) // "the whole subtree shuts down": every consumer leaves its loop when its parent's events close
 	checkPublisherTable(c)
 	checkPublisherFanout(c) // the publisher's drain ends only if every subscription reports its end exactly once, however it ended
@@ -465,6 +474,7 @@ func checkC14(c *Ctx) {
 }
 
 func checkC15(c *Ctx) {
+	checkAppendBases(c, []string{""}) // the snapshot starts empty
 	checkAcceptPurity(c)            // filters are shared by the cache goroutines of all subscriptions: Accept must not write
 	checkFilterSubscriptionTable(c) // a refilter is ONE cache operation (never a half-applied refilter)
 	if c.Tier == "thorough" {
@@ -479,6 +489,7 @@ func checkC15(c *Ctx) {
 	m.checkDoUpdate() // reads never go backwards: a version that is not newer never replaces the cached one
 	m.checkDoSync()
 	checkNotRunningErrors(c)
+	checkRequestChannelPairing(c)
 	c.floor("T-CONFINE(_cache)", 8, "field accessors and call sites")
 	c.floor("T-BLOCK(cache-handlers)", 6, "6 handler/helper functions")
 }
